@@ -148,5 +148,5 @@ def s_case(draw, max_n=200):
 
 def parts(tier):
     if tier == 'quick':
-        return [Part('grids', check, strategy=s_case(100), examples=200, shards=4)]
+        return [Part('grids', check, strategy=s_case(100), examples=600, shards=4)]
     return [Part('grids', check, strategy=s_case(200), examples=6000, shards=16)]
